@@ -14,7 +14,8 @@ RULE = ("2-7 commands, some internal ('!'), each with a random set of earlier co
         "diamonds, an ancestor named together with its descendant, a parent named twice), 0-2 prefix-free options "
         "per command parser (flags and valued), one option on the ArgParser itself, explicit or implicit default "
         "command; for every (command, option): argument vector [command, option(, value)] and, for the default "
-        "command, the vector without the command name; standard --color[=x] / --no-color / -v on every command. "
+        "command, the vector without the command name (a third of the option values are spelled like a "
+        "declared command name); standard --color[=x] / --no-color / -v on every command. "
         "Oracle: the harness computes the transitive ancestors of each command; an option is accepted (namespace "
         "attribute set, command recorded) iff its owner is the command itself, one of its ancestors, or the "
         "ArgParser; otherwise SystemExit(2). Non-trivial = graph in which some command reaches an ancestor through "
@@ -105,7 +106,9 @@ def judge(ctx, g, case):
     for cmd in g['real']:
         for o, owner, flag in g['opts']:
             for without_cmd in ((False, True) if cmd == exp_default else (False,)):
-                argv = ([] if without_cmd else [cmd]) + [o] + ([] if flag else ["val"])
+                # the value of an option may be spelled like a declared command or option-set name
+                val = "val" if (hash((cmd, o)) % 3) else g['names'][hash((o, cmd)) % len(g['names'])]
+                argv = ([] if without_cmd else [cmd]) + [o] + ([] if flag else [val])
                 should = owner is None or owner == cmd or owner in anc[cmd]
                 ctx.count("command_option_decisions")
                 if without_cmd:
@@ -132,7 +135,7 @@ def judge(ctx, g, case):
                 ctx.count("accepted" if ok else "rejected")
                 if ok:
                     attr = o[2:].replace('-', '_')
-                    if getattr(ns, attr, None) not in (True, "val"):
+                    if getattr(ns, attr, None) not in ((True,) if flag else (val,)):
                         problems.append(("accepted-option-not-in-namespace", {"argv": argv}))
                     if ns.command != cmd:
                         problems.append(("wrong-command-recorded", {"argv": argv, "command": ns.command,
